@@ -490,8 +490,10 @@ def module_roundtrip(enc, style, future=False):
     import shutil
     import tempfile
     from mako.template import Template
-    texts = {"utf-8": "café Ж €", "latin-1": "café ü", "cp1251": "Жж ш", "koi8-r": "Жж", "ascii": "plain"}
+    texts = {"utf-8": "café Ж €", "latin-1": "café ü", "cp1251": "Жж ш", "koi8-r": "Жж", "ascii": "plain", "utf-16": "héllo Ж"}
     body = texts[enc]
+    if enc == "utf-16" and style != "input_encoding":
+        return []            # a coding comment cannot be read in a UTF-16 file: only input_encoding can name it
     src = ("## -*- coding: %s -*-\n" % enc if style in ("comment", "both") else "") + body + "${'!'}\n"
     kw = {"input_encoding": enc} if style in ("input_encoding", "both") else {}
     bom = b""
